@@ -116,6 +116,22 @@ template <class... Defs> void testLayout(const std::string& layoutName, const st
     // growing again reallocates
     assigned.resetBlocksFromSizes(sizesArr(counts));
     walk(assigned, counts, assigned.getPtr(), size_t(assigned.getAllocatedMemorySizeInByte()), true, CHECK_ZERO, 0, "after-regrow");
+    // growing beyond the current allocation: an owning block frees its buffer and allocates a larger one
+    {
+        std::vector<long> bigger = counts; for (auto& b : bigger) if (b != 1) b = b * 2 + 3;   // (a count of 1 may be a scalar block, whose count is fixed)
+        bool grows = false; for (size_t i = 0; i < bigger.size(); ++i) grows = grows || bigger[i] != counts[i];
+        walk(assigned, counts, assigned.getPtr(), size_t(assigned.getAllocatedMemorySizeInByte()), false, WRITE_PATTERN, salt + 2, "before-outgrow-write");
+        assigned.resetBlocksFromSizes(sizesArr(bigger));
+        const size_t size3 = size_t(assigned.getAllocatedMemorySizeInByte());
+        if (size3 < size) res.fail(tag + ":outgrown-block-smaller-than-before", layoutName);
+        if (grows) res.ev("outgrown-layouts");
+        walk(assigned, bigger, assigned.getPtr(), size3, true, CHECK_ZERO, 0, "after-outgrow");
+        walk(assigned, bigger, assigned.getPtr(), size3, false, WRITE_PATTERN, salt + 3, "after-outgrow-write");
+        unsigned char* copy3 = static_cast<unsigned char*>(malloc(size3));
+        memcpy(copy3, assigned.getPtr(), size3);
+        { MB view3(copy3, long(size3)); walk(view3, bigger, copy3, size3, true, CHECK_PATTERN, salt + 3, "after-outgrow-view"); }
+        free(copy3);
+    }
     res.ev("layouts-exercised");
 }
 
@@ -359,6 +375,21 @@ template <class Data, int NV, class Rhs, int NR> void runRows(long kk, uint64_t 
         for (int b = 0; b < 2; ++b) { unsigned char* c = static_cast<unsigned char*>(malloc(ps[size_t(b)].second ? ps[size_t(b)].second : 1)); memcpy(c, ps[size_t(b)].first, ps[size_t(b)].second); cp[size_t(b)] = {c, ps[size_t(b)].second}; copies.push_back(cp[size_t(b)]); }
         Group view(cp);
         checkGroup(view, cp[0].first, cp[0].second, cp[1].first, cp[1].second, "view");
+        // partial view over the data part only (as the task runtimes' callbacks build them): same leaves, indices and data; no result rows
+        {
+            Group dataOnly(cp[0].first, cp[0].second, nullptr, 0);
+            const Group& cd = dataOnly;
+            if (cd.getNbLeaves() != g.getNbLeaves() || cd.getNbParticles() != g.getNbParticles() || cd.getStartingSpacialIndex() != g.getStartingSpacialIndex() || cd.getEndingSpacialIndex() != g.getEndingSpacialIndex()) res.fail("c14:data-only-view-header", "particle group");
+            else for (long i = 0; i < g.getNbLeaves(); ++i) {
+                if (cd.getLeafSpacialIndex(i) != g.getLeafSpacialIndex(i) || cd.getNbParticlesInLeaf(i) != g.getNbParticlesInLeaf(i)) res.fail("c14:data-only-view-leaf", "leaf " + vh::str(i));
+                const auto dv = cd.getParticleData(i); const auto dg = static_cast<const Group&>(g).getParticleData(i);
+                for (int v = 0; v < NV; ++v) if (std::memcmp(dv[size_t(v)], dg[size_t(v)], sizeof(Data) * size_t(g.getNbParticlesInLeaf(i))) != 0) res.fail("c14:data-only-view-data", "leaf " + vh::str(i) + " value " + vh::str(v));
+                if (std::memcmp(cd.getParticleIndexes(i), static_cast<const Group&>(g).getParticleIndexes(i), sizeof(long) * size_t(g.getNbParticlesInLeaf(i))) != 0) res.fail("c14:data-only-view-indexes", "leaf " + vh::str(i));
+                const auto rv = cd.getParticleRhs(i); auto rn = dataOnly.getParticleRhs(i);
+                for (int v = 0; v < NR; ++v) if (rv[size_t(v)] != nullptr || rn[size_t(v)] != nullptr) res.fail("c14:data-only-view-rhs-not-null", "leaf " + vh::str(i));
+            }
+            res.ev("partial-views-checked");
+        }
     }
     for (auto& c : copies) free(c.first);
     // cell groups: recognisable content in every component, then byte-copied views through both view constructors
@@ -387,6 +418,15 @@ template <class Data, int NV, class Rhs, int NR> void runRows(long kk, uint64_t 
         { CellGroup v(cp); checkView(v, "array-constructor view"); }
         { CellGroup v(cp[0].first, cp[0].second, cp[1].first, cp[1].second, cp[2].first, cp[2].second); checkView(v, "pointer/size-constructor view"); }
         { CellGroup v(cp); CellGroup w(std::move(v)); checkView(w, "moved view"); }
+        {   // partial view without the local part (upward-pass callbacks): header, indices and multipoles as in the original
+            CellGroup v(cp[0].first, cp[0].second, cp[1].first, cp[1].second, nullptr, 0);
+            if (v.getNbCells() != g.getNbCells() || v.getStartingSpacialIndex() != g.getStartingSpacialIndex()) res.fail("c14:partial-cell-view-header", "level " + vh::str(L));
+            else for (long i = 0; i < g.getNbCells(); ++i) {
+                if (v.getCellSpacialIndex(i) != g.getCellSpacialIndex(i)) res.fail("c14:partial-cell-view-accessor", "level " + vh::str(L));
+                if (std::memcmp(&v.getCellMultipole(i), &g.getCellMultipole(i), sizeof(CellM)) != 0) res.fail("c14:partial-cell-view-multipole", "level " + vh::str(L) + " cell " + vh::str(i));
+            }
+            res.ev("partial-views-checked");
+        }
         for (auto& c : cp) free(c.first);
     }
     res.ev("cell-group-views-checked", cellViews);
